@@ -117,6 +117,22 @@ def execute(case, r):
             return ret_small(SecBootBlckSize.align(a["n"]))
         if fn == "blk_to_num":
             return ret_small(SecBootBlckSize.to_num_blocks(a["n"]))
+        if fn == "hex_file":
+            path = os.path.join(os.getcwd(), f"key-{a['id']}.{'txt' if a['kind'] == 'text' else 'bin'}")
+            with open(path, "wb") as f:
+                f.write(("".join(a["s"]) + a.get("eol", "")).encode() if a["kind"] == "text" else bytes(a["d"]))
+            try:
+                how = a.get("how", 0)          # by absolute path, by name in the working directory, by name through search_paths
+                if how == 0:
+                    return ret_bytes(M.load_hex_string(path, a["size"]))
+                if how == 1:
+                    return ret_bytes(M.load_hex_string(os.path.basename(path), a["size"]))
+                return ret_bytes(M.load_hex_string(os.path.basename(path), a["size"], search_paths=["/nonexistent", os.path.dirname(path)]))
+            finally:
+                os.remove(path)
+        if fn == "value_to_int_uni":
+            v = M.value_to_int(a["text"])
+            return ret_int(v)
         if fn == "hex_string":
             s = "".join(a["s"])
             src = [s, "0x" + s, "0X" + s][a.get("form", r.randrange(3))]
@@ -261,6 +277,43 @@ def run(tier):
             if tuple(s) not in seen:
                 seen.add(tuple(s))
                 cases.append({"fn": "value_to_int_str", "a": {"s": list(s)}})
+
+    # characters outside ASCII inside otherwise valid numbers: digits of other scripts, full-width letters, superscripts, Unicode spaces - replaced
+    # into and inserted at every position (the spec sees their CLASS, the code the real character)
+    import unicodedata
+
+    uni = ["\uff11", "\u0663", "\u0966", "\U0001d7d7", "\u00b2", "\u2155", "\uff21", "\uff58", "\uff46", "\u0431", "\u00a0", "\u2003", "\u3000"]
+
+    def cls(ch):
+        if ord(ch) < 128:
+            return ch
+        c = unicodedata.category(ch)
+        return "<Zs>" if ch.isspace() else "<Nd>" if c == "Nd" else "<No>" if c in ("No", "Nl") else "<L>"
+
+    for base in ("12", "0x1f", "0b10", "0o17", "1_0", "7u", " 5 ", "0", "0xA", "9ul"):
+        for u in uni:
+            for i in range(len(base) + 1):
+                for text in ({base[:i] + u + base[i:]} | ({base[:i] + u + base[i + 1:]} if i < len(base) else set())):
+                    cases.append({"fn": "value_to_int_uni", "a": {"s": [cls(ch) for ch in text], "text": text}})
+    for u in uni:
+        cases.append({"fn": "value_to_int_uni", "a": {"s": [cls(u)], "text": u}})
+        cases.append({"fn": "value_to_int_uni", "a": {"s": [cls(u)] * 2, "text": u * 2}})
+
+    # load_hex_string, FILE form: text files with hexadecimal text and binary files (not decodable as text) of every size around the expected one,
+    # reached by absolute path, by name, and through search_paths
+    nfile = 0
+    for size in (1, 2, 16, 32, 48):
+        for n in sorted({1, size - 1, size, size + 1, 2 * size, 2 * size + 1, 64} - {0}):
+            for how in (0, 1, 2):
+                nfile += 1
+                d = [0x80 | r.randrange(64) if k % 3 == 0 else 0xFF if k % 3 == 1 else r.randrange(256) for k in range(n)]   # 0x80.., 0xFF: never valid UTF-8
+                cases.append({"fn": "hex_file", "a": {"id": nfile, "kind": "bin", "d": d, "s": [], "size": size, "how": how}})
+        for nd in (2 * size, 2 * size - 1, 2 * size + 2, 2):
+            nfile += 1
+            txt = "".join(r.choice("0123456789abcdefABCDEF") for _ in range(nd))
+            if nd != 2 * size and set(txt[: max(0, nd - 2 * size)]) <= {"0"}:
+                txt = "7" + txt[1:]              # keep the text outside the tolerated zero-surplus class
+            cases.append({"fn": "hex_file", "a": {"id": nfile, "kind": "text", "d": [], "s": list(txt), "size": size, "how": nfile % 3, "eol": r.choice(["", "\n"])}})
 
     # every hex text is offered bare, with 0x and with 0X (the contract is the same for the three forms)
     cases = [c if c["fn"] != "hex_string" else {"fn": c["fn"], "a": dict(c["a"], form=f)} for c in cases for f in ((0, 1, 2) if c["fn"] == "hex_string" else (0,))]
